@@ -32,4 +32,5 @@ open Pandora.C16
 #print axioms Pandora.C16Kernels.getWindow_eq_fixed
 #print axioms Pandora.C16Kernels.getWindow_eq_source
 #print axioms Pandora.C16Kernels.getWindow_raises_iff
+#print axioms Pandora.C16Kernels.encWindow_spec
 #print axioms Pandora.C16Kernels.getWindow_eq_spec
